@@ -28,7 +28,7 @@ ASSUMPTIONS = [
     "included files carry no include keys themselves (re-inclusion semantics are not stated by the property)",
     "the format layer (C04) is trusted to write the files the harness prepares",
 ]
-REQUIRED = ["cwd-decoy", "mode:merge", "mode:load", "mode:missing", "scope:root", "scope:nested", "scope:deep", "chain", "path:relative",
+REQUIRED = ["format-options", "cwd-decoy", "mode:merge", "mode:load", "mode:missing", "scope:root", "scope:nested", "scope:deep", "chain", "path:relative",
             "path:absolute", "conflict:map-vs-scalar"] + ["fmt:" + f for f in trees.FORMATS]
 LEVEL_TEXT = (
     "Generated tree pairs/chains and real include files with a 10-line reference merge and a metamorphic "
@@ -71,6 +71,7 @@ def strategy(tier):
                                                     "how": st.sampled_from(["relative", "relative-sub", "absolute"])}), min_size=1, max_size=4),
         "startdir": st.sampled_from(["inc", "inc/more", None]),
         "prestate": _tree(1),
+        "fopts": st.sampled_from([None, None, "app"]),  # yaml root_key / xml root_tag passed to loads() and used for every file
     })
     missing = st.fixed_dictionaries({
         "mode": st.just("missing"), "fmt": st.sampled_from(trees.FORMATS), "base": _tree(2), "scope": scope,
@@ -199,7 +200,11 @@ def run_case(case, R):
         os.makedirs(startdir, exist_ok=True)
         use_startdir = startdir if (mode != "load" or case.get("startdir")) else None
         schema = _schema(cc, use_startdir)
-        formatter = cc.ConfigFormat.get(fmt)
+        fopts = {}
+        if mode == "load" and case.get("fopts") and fmt in ("yaml", "xml"):
+            fopts = {"root_key": case["fopts"]} if fmt == "yaml" else {"root_tag": case["fopts"]}
+            R.label("format-options")
+        formatter = cc.ConfigFormat.get(fmt, **fopts)
         dummy = schema()
 
         def prestate(cfg):
@@ -308,7 +313,7 @@ def run_case(case, R):
         real = schema()
         prestate(real)
         try:
-            real.loads(doc, fmt)
+            real.loads(doc, fmt, **fopts)
             real_out = ("ok", _snap(cc, real))
         except Exception as exc:
             real_out = ("raised", exc)
